@@ -1,6 +1,7 @@
 """Poly1305 (C05) and ChaCha20-Poly1305 (C06, C07) harness families."""
 OVERLAYS = [
     ("src/poly1305.rs", "verif_poly", "poly1305.rs", None, "crate::poly1305"),
+    ("src/chacha20poly1305.rs", "verif_aead", "aead.rs", None, "crate::chacha20poly1305"),
 ]
 PROPS = {
     "C05": dict(
@@ -20,3 +21,37 @@ PROPS = {
         level_note="block()'s limb multiplication is outside CBMC's reach (mirsym Int obligation). input() step bound: 48 bytes per call.",
     ),
 }
+
+_AEAD_ASSUME = [
+    "stubs (recorders): <Poly1305 as Mac>::input / raw_result, ChaCha::process / process_mut -> loop-free event loggers; their own semantics are C05 / C03 / C04",
+    "arbitrary context: cipher offset <= 64, MAC leftover < 16, limb invariants of C05, aad_len/data_len < 2^62 (so the u64 counters cannot wrap)",
+]
+PROPS["C06"] = dict(
+    prefixes=["c06_"],
+    level="model_checking",
+    bounds="one API operation from an ARBITRARY context (any cipher position, any MAC state, any 64-bit length counters < 2^62); data/AAD pieces of symbolic "
+           "length 0..=40 (one-shot: 0..=24); keys 16 and 32 bytes, all nonces",
+    outside="the primitives themselves (C03/C04/C05); byte values of ciphertext are not recomputed here: the harness shows WHICH buffer goes through the cipher and the MAC, "
+            "in which order, with which lengths; composition with C04/C05 gives the RFC 8439 bytes (stated argument, DESIGN.md 4/C06)",
+    assumptions=_AEAD_ASSUME,
+    trusted=[],
+    explanation="event-sequence harnesses: the AEAD layer is checked to issue exactly RFC 8439's sequence of cipher and MAC calls from every state",
+    level_text="Context::new (one-time key = first 32 bytes of block 0, cipher left at block 1, for 16- and 32-byte keys), add_data, pad16 on both phase changes, "
+               "encrypt/encrypt_mut/decrypt/decrypt_mut (cipher-then-MAC vs MAC-then-cipher, exact buffers and lengths), finalize (ciphertext padding, little-endian "
+               "aad_len||data_len trailer, tag = MAC output) and the one-shot wrappers are each decided by CBMC as one step from an arbitrary context.",
+    level_note="Primitives recorded, not executed (they are C03-C05). Piece lengths <= 40 per call; any number of calls by induction over the arbitrary context.",
+)
+PROPS["C07"] = dict(
+    prefixes=["c07_", "c18_tag_eq"],
+    level="model_checking",
+    bounds="all 2^128 x 2^128 (computed tag, supplied tag) pairs; arbitrary context; received ciphertext piece 0..=24 bytes for the one-shot path",
+    outside="that a change of key/nonce/AAD/ciphertext changes the Poly1305 value is the cryptographic assumption of the MAC, not a solver-decidable statement; what is decided: "
+            "the MAC input framing is the RFC's (C06) and the verdict is exactly 16-byte equality with the recomputed tag",
+    assumptions=_AEAD_ASSUME,
+    trusted=[],
+    explanation="the verdict of both decryption interfaces equals byte-wise equality of the supplied tag with the tag computed over the received ciphertext",
+    level_text="ContextDecryption::finalize and one-shot decrypt: with the computed tag an ARBITRARY 16 bytes (recorded MAC), the verdict is Match/true exactly when all "
+               "16 supplied bytes equal it (kills always-true, prefix-only, lane-folding comparisons); MAC is taken over the received ciphertext before decryption; "
+               "Tag == Tag at full width.",
+    level_note="Poly1305 collision resistance is assumed, not checked. Framing obligations are shared with C06.",
+)
